@@ -23,13 +23,24 @@ def available(name):
     return shutil.which(SOLVERS[name][0]) is not None
 
 
+def fp_parts(assertion):
+    """fresh variables and defining assertions of the floating-point conversion nodes in a term"""
+    defs = assertion.fp_defs()
+    return {n: w for n, (w, _a) in defs.items()}, [a for _n, (_w, asserts) in sorted(defs.items()) for a in asserts]
+
+
 def script(queries):
-    out = ["(set-logic QF_BV)"]
+    """QF_BV unless some query contains floating-point conversion nodes (then QF_BVFP: each node is a fresh bit-vector
+    variable constrained through `to_fp`, so every term stays a bit-vector and no fp.to_ieee_bv is needed)."""
+    out = ["(set-logic %s)" % ("QF_BVFP" if any(q[2].uses_fp() for q in queries) else "QF_BV")]
     for i, (name, decls, assertion) in enumerate(queries):
         out.append('(echo "Q %d")' % i)
         out.append("(push 1)")
-        for v, w in sorted(decls.items()):
+        fdecls, fasserts = fp_parts(assertion)
+        for v, w in sorted(list(decls.items()) + list(fdecls.items())):
             out.append("(declare-const %s (_ BitVec %d))" % (v, w))
+        for a in fasserts:
+            out.append("(assert %s)" % a)
         out.append("(assert (= %s #b1))" % assertion.smt())
         out.append("(check-sat)")
         out.append("(pop 1)")
@@ -80,9 +91,12 @@ def run_batch(queries, solver, timeout=120):
 def get_model(query, solver="z3", timeout=60):
     """Model of one satisfiable query: {var: int} or None."""
     name, decls, assertion = query
-    s = ["(set-logic QF_BV)", "(set-option :produce-models true)"]
-    for v, w in sorted(decls.items()):
+    s = ["(set-option :produce-models true)", "(set-logic %s)" % ("QF_BVFP" if assertion.uses_fp() else "QF_BV")]
+    fdecls, fasserts = fp_parts(assertion)
+    for v, w in sorted(list(decls.items()) + list(fdecls.items())):
         s.append("(declare-const %s (_ BitVec %d))" % (v, w))
+    for a in fasserts:
+        s.append("(assert %s)" % a)
     s.append("(assert (= %s #b1))" % assertion.smt())
     s.append("(check-sat)")
     s.append("(get-value (%s))" % " ".join(sorted(decls)))
